@@ -45,6 +45,10 @@ type dbProfile struct {
 var dbNames = [][]byte{[]byte("a"), []byte("b"), []byte("a/b"), []byte("p/q"), []byte(""), []byte("_internal/x"), []byte("a\nb"),
 	[]byte("a/../b"), []byte("a/./b"), []byte("a//b"), []byte("p/../_internal/x")}
 
+// two long names that agree on their first 290 bytes (generated / hierarchical names have no length limit
+// anywhere; a record, a grant or a request that keeps only a prefix confuses them)
+var dbLongNames = [][]byte{append(bytes.Repeat([]byte("team/service/env/"), 17), []byte("/live-key")...), append(bytes.Repeat([]byte("team/service/env/"), 17), []byte("/test-key")...)}
+
 func superOnly(r *rand.Rand) []DBCaller {
 	return []DBCaller{{ID: 1, Rules: superRules()}}
 }
@@ -148,6 +152,9 @@ func genStep(r *rand.Rand, p *dbProfile, callers []DBCaller, last []secDump, del
 	default:
 		st.Name = dbNames[r.IntN(len(dbNames))]
 	}
+	if (p.Name == "C06" || p.Name == "C01" || p.Name == "C02") && r.IntN(60) == 0 {
+		st.Name = dbLongNames[r.IntN(2)]
+	}
 	var cur *secDump
 	for i := range last {
 		if bytes.Equal(last[i].Name, st.Name) {
@@ -240,11 +247,22 @@ func runDBHistory(work string, idx int, p *dbProfile, in DBInput, r *rand.Rand, 
 				st, forced = forced[0], forced[1:]
 			} else {
 				st = genStep(r, p, in.Callers, last, deleted)
-				if p.Name == "C03" && r.IntN(6) == 0 {
+				if p.Name == "C03" && r.IntN(6) == 0 || p.Name == "C02" && r.IntN(12) == 0 {
 					st.Restart = true
+				}
+				for _, o := range obs { // a restart also replaces a broken audit writer, which the sequential model does not follow
+					for _, f := range o.Fx {
+						if f.Kind == "auditfail" {
+							st.Restart = false
+						}
+					}
 				}
 				if p.Name == "C01" && st.Caller != 0 && st.Kind != "list" && r.IntN(5) == 0 {
 					st.Overlap = true
+				}
+				// the caller that has just listed acts again: what it may do must not depend on having listed
+				if n := len(in.Ops); n > 0 && in.Ops[n-1].Kind == "list" && in.Ops[n-1].Caller != 0 && st.Kind != "list" && r.IntN(2) == 0 {
+					st.Caller = in.Ops[n-1].Caller
 				}
 				// reads by different callers back to back, with no write in between (same name, other caller)
 				if n := len(in.Ops); n > 0 && len(in.Callers) > 1 && r.IntN(4) == 0 {
@@ -272,6 +290,15 @@ func forcedSequences(r *rand.Rand, p *dbProfile) []DBStep {
 	q := fmt.Sprintf("%q", n)
 	mk := func(kind string, ver uint32, val int) DBStep {
 		return DBStep{Kind: kind, Name: n, NameQ: q, Ver: ver, Val: val}
+	}
+	if (p.Name == "C03" || p.Name == "C02") && r.IntN(8) == 0 {
+		// a database that is (again) empty when the server restarts: brand new, or everything deleted
+		rs := mk("put", 0, 1)
+		rs.Restart = true
+		if r.IntN(2) == 0 {
+			return []DBStep{rs, mk("get", 0, 0), mk("put", 0, 2)}
+		}
+		return []DBStep{mk("put", 0, 1), mk("del", 0, 0), rs, mk("info", 0, 0), mk("del", 0, 0), mk("put", 0, 2)}
 	}
 	switch r.IntN(8) {
 	case 0: // delete the newest version, then put again (empty value and the deleted value)
